@@ -31,6 +31,7 @@ import numpy as np
 from . import common
 
 TOL = 1e-9
+HAVE_DRIVER = True
 
 
 # --------------------------------------------------------------------------
@@ -38,6 +39,8 @@ TOL = 1e-9
 # --------------------------------------------------------------------------
 
 def enc_num(x):
+    if not isinstance(x, Fraction) and not np.isfinite(x):
+        return "nan"        # uninitialised memory / overflow of the code under test: never a model value
     f = x if isinstance(x, Fraction) else Fraction(float(x))
     return str(f.numerator) if f.denominator == 1 else f"{f.numerator}/{f.denominator}"
 
@@ -432,7 +435,17 @@ def run(ctx):
         "rfft(irfft(Z)) = Z off DC/Nyquist is numpy's and only exercised numerically",
         "min_dist >= 0, dimension >= 1, delay >= 0 (negative values are outside the stated domain)",
     ]
-    ctx.proofs()
+    global HAVE_DRIVER
+    HAVE_DRIVER = True
+    try:
+        ctx.proofs()
+    except common.BuildError as e:
+        # the loop-level model no longer builds against the arithmetic regenerated from the
+        # source (or a theorem about it broke the driver's imports): a broken tie, reported;
+        # the failing input is the oracle's to find.  No model answers in this run.
+        ctx.obligation("model and driver build against Generated/ArithC15.lean", "lean-build",
+                       False, str(e)[-1500:])
+        HAVE_DRIVER = False
     mode = phase_mode()
     ctx.count(f"phase-multiplication-mode:{mode}")
 
@@ -773,7 +786,7 @@ def run(ctx):
                    not struct_bad, "\n".join(struct_bad[:5]))
     # ---------------- run the model, compare -------------------------------
     # walk requests carry implementation *values*; the model answers indices
-    model = common.driver("C15", reqs)
+    model = common.driver("C15", reqs) if HAVE_DRIVER else []
     bad = []
     for i, (rq, im, mo) in enumerate(zip(reqs, impl, model)):
         if isinstance(im, tuple):
@@ -829,7 +842,7 @@ def run(ctx):
 def float_compare(requests, impl):
     """run `requests` through the driver (IEEE double model) and compare with the recorded
     complex rows: `impl[i] = ([row per call], relative tolerance)`; returns the mismatches"""
-    model = common.driver("C15", requests)
+    model = common.driver("C15", requests) if HAVE_DRIVER else []
     bad = []
 
     def dec(t):
